@@ -25,7 +25,7 @@ TRANSFORMS = ("none", "modify", "drop-odd")
 
 
 def annotations(tier):
-    out = [("gff3", 1), ("gff3", 3), ("gff3", 4), ("gtf", 3)]
+    out = [("gff3", 1), ("gff3", 3), ("gff3", 4), ("gtf", 3), ("gff3mixed", 4)]
     if tier != "quick":
         out += [("gff3", 12), ("gtf", 5)]
     return out
@@ -41,12 +41,20 @@ def shards(tier):
     for a in annotations(tier):
         for form in FORMS:
             out.append(("forms", a, form))
-        for form in ("path", "list", "generator"):
-            out.append(("inspect", a, form))
+        for form in ("path", "list", "generator", "counted"):
+            if a[0] != "gff3mixed":
+                out.append(("inspect", a, form))
     return out
 
 
 def texts_of(kind, n):
+    if kind == "gff3mixed":
+        # lines that do not agree on how multiple values are written (one repeats the key, the others use comma lists);
+        # both spellings parse to the same attributes under either dialect, so every form must still agree
+        return ["c1\ts\tgene\t10\t20\t.\t+\t.\tID=h0;tag=t0,u0;Name=a",
+                "c1\ts\tmRNA\t15\t25\t.\t+\t.\tID=h1;tag=t1,u1;Name=b",
+                "c1\ts\texon\t20\t30\t.\t+\t.\tID=h2;tag=t2;tag=u2;Name=c",
+                "c1\ts\texon\t25\t35\t.\t+\t.\tID=h3;tag=t3,u3;Name=d"][:n]
     if kind == "gff3":
         d = G.ALL[0]
         return files.render(d, files.file_lines(d, "parent" if n >= 3 else "same", n))
@@ -158,6 +166,17 @@ def body_forms(ch, ctx):
     ctx.nontrivial(cl < n or tname != "none" or form != "path")
     ctx.outcome((kind, n, form, cl < n, tname))
     exp = expected_after(kind, texts, tname)
+    if kind == "gff3mixed":
+        # no absolute expectation for inconsistent text: what the plain path form yields is the yardstick
+        if tname != "none" or form in ("DataIterator+kw",):
+            ctx.outcome("mixed-skipped")
+            return
+        yard = [str(f) for f in gffutils.DataIterator(dbutil.write_text(wd, "yard.gff", "\n".join(texts) + "\n"), checklines=cl)]
+        data, kw, src = build_input(form, kind, texts, wd, cl, None, "m")
+        it = data if form == "DataIterator" else gffutils.DataIterator(data, **kw)
+        got = [str(f) for f in it]
+        ctx.check(got == yard, "iterated-sequence-differs-from-path-form", sig, checklines=cl, got=got, expected=yard)
+        return
 
     # 1. iterating the DataIterator
     if form != "DataIterator+kw":
@@ -233,8 +252,18 @@ def body_inspect(ch, ctx):
     look = [k for i, k in enumerate(LOOK) if mask >> i & 1]
     texts = texts_of(kind, n)
     wd = ctx.fresh_dir()
-    data, kw, src = build_input(form, kind, texts, wd, 10, None, "i")
+    calls = []
+    if form == "counted":
+        def counting(f):
+            calls.append(f.start)
+            return f
+        data = gffutils.DataIterator(dbutil.write_text(wd, "ins.gff", "\n".join(texts) + "\n"), transform=counting)
+    else:
+        data, kw, src = build_input(form, kind, texts, wd, 10, None, "i")
     res = gi.inspect(data, look_for=look, limit=limit, verbose=False)
+    if form == "counted":
+        ctx.check(len(calls) == res["feature_count"], "inspect-iterated-more-than-it-reports", dict(form=form, limited=limit is not None),
+                  iterated=len(calls), reported=res["feature_count"], limit=limit)
     m = n if not limit else min(limit, n)
     feats = [feature_from_line(t) for t in texts[:m]]
     exp = {"feature_count": m}
